@@ -27,7 +27,7 @@ ASSUMPTIONS = [
 BADCOMPILE = ['return 5', 'yield 5', 'break', 'continue', 'nonlocal sim_x', 'def sim_bad(a, a): pass',
               '__debug__ = 1', 'from __future__ import nope']
 KINDS = ['wrong', 'raise_direct', 'raise_called', 'raise_helper', 'raise_helper', 'badcompile', 'bad_repr', 'bad_repr',
-         'import_error', 'baddirective', 'trace', 'stream', 'none', 'wantcorrupt', 'ignore_want_exc', 'zero']
+         'import_error', 'baddirective', 'trace', 'stream', 'none', 'wantcorrupt', 'ignore_want_exc', 'zero', 'sharedpart']
 
 
 def _helper_shape(rng, world, dtid_pick=None):
@@ -86,6 +86,28 @@ def generate(rng, tier):
         target_dt, target_pid = rng.choice(zs)
         zname = target_dt.split('::')[1].split(':')[0]
         zero_cmd = rng.choice(['zero-all', 'zero-all', zname]) if only else zname
+    shared_pid = None
+    if kind == 'sharedpart':
+        # two doctests of one file begin with a part of the same text; the later one raises in it
+        by_mod = {}
+        for dtid, dt, mod in W.iter_doctests(world):
+            by_mod.setdefault(mod['name'], []).append((dtid, dt))
+        mods2 = [m for m, lst in sorted(by_mod.items()) if len(lst) >= 2]
+        if mods2:
+            mname = rng.choice(mods2)
+            lst = by_mod[mname]
+            a = rng.randrange(len(lst) - 1)
+            b = rng.randrange(a + 1, len(lst))
+            shared_pid = 'qsh%ss0a' % mname.split('.')[-1]
+            for dtid, dt in (lst[a], lst[b]):
+                base = max(st['i'] for st in dt['steps']) + 1
+                dt['steps'].insert(0, {'i': base, 'form': 'sharedcall', 'pts': [], 'spid': shared_pid, 'ps2': False,
+                                       'sep': 'none', 'want': 'repr'})
+                if len(dt['steps']) > 1:
+                    dt['steps'][1]['sep'] = 'none'
+            target_dt = lst[b][0]
+        else:
+            kind = 'none'
     ids = gen.doctest_ids(world)
     if kind in ('badcompile', 'baddirective'):
         cands = [(dtid, dt) for dtid, dt, mod in W.iter_doctests(world)]
@@ -139,7 +161,7 @@ def generate(rng, tier):
                     dt['steps'][0]['sep'] = 'none'
         else:
             kind = 'none'
-    rerun = rng.random() < 0.25 and kind != 'zero'
+    rerun = rng.random() < 0.25 and kind not in ('zero', 'sharedpart')
     if rerun and rng.random() < 0.6:
         # parts that are switched off, in a doctest that is run more than once
         tgt = target_dt or rng.choice(ids)
@@ -160,7 +182,7 @@ def generate(rng, tier):
         target_dt = rng.choice(ids)
     target_mod = [m for m in world['modules'] if target_dt.startswith(m['name'] + '::')][0]
     n_runs = 1
-    if kind == 'zero':
+    if kind in ('zero', 'sharedpart'):
         shape = rng.choice(['runner', 'runner', 'cli'])
     if rerun:
         shape = 'obj'
@@ -211,6 +233,10 @@ def generate(rng, tier):
     elif kind == 'raise_helper':
         plan.append({'dt': target_dt, 'k': k, 'pid': target_pid, 'kind': 'raise',
                      'exc': rng.choice(['ValueError', 'KeyError', 'SimError']), 'msg': 'fault in helper'})
+    elif kind == 'sharedpart':
+        plan.append({'dt': target_dt, 'k': k, 'pid': shared_pid, 'kind': 'raise',
+                     'exc': rng.choice(['ValueError', 'KeyError', 'SimError']), 'msg': 'fault in shared text',
+                     'depth': rng.choice([0, 0, 2])})
     elif kind == 'zero':
         if rng.random() < 0.8:
             plan.append({'dt': target_dt, 'k': k, 'pid': target_pid, 'kind': 'raise',
@@ -288,7 +314,7 @@ SWEEP_RULE = ('for one doctest of a sampled world, at a sampled verbosity and ru
 
 def sweep(rng, h):
     base = generate(rng, 'thorough')
-    while base.get('kind') in ('trace', 'stream', 'zero'):
+    while base.get('kind') in ('trace', 'stream', 'zero', 'sharedpart'):
         base = generate(rng, 'thorough')
     target = None
     for op in base['ops']:
